@@ -219,6 +219,21 @@ CHECKS = {
         "only. Known finding C20-d (LINGER on io_uring).",
    technique="TLA+ spec (Uring.tla, Delivery.tla, Session.tla) + TLC; differential recorded histories (tokio vs io_uring configurations) validated by TLC against Delivery.tla; TLC trace validation (Trace_Uring.tla) of hook events from inside the io_uring backend",
    design_ref="DESIGN.md 5 (C20)"),
+ "C09": dict(
+   text="TLC checks Cancel.tla exhaustively: recv (ReadyPipeQueue::pop - await a token, take the item, await putting the token back), send "
+        "(await a peer, await room, push) and REQ send as step lists with a Cancel action wherever the task can be parked: NoLoss, "
+        "NothingLost, CancelledNotSent, NoStranded - and must show the loss when the re-arm await of pop() can park. On real sockets every "
+        "call of a stream of send / send_multipart / recv / recv_multipart calls is dropped after its k-th Pending poll (k = 1..3, counted by "
+        "the harness), under back-pressure, with several senders feeding one receiver, with SNDTIMEO / RCVTIMEO cancelling internally, for "
+        "PUSH/PULL, DEALER/ROUTER, ROUTER/DEALER, PUB/SUB, REQ/REP over tcp / ipc / inproc; afterwards normal calls continue on the same "
+        "sockets. The history is validated by TLC against Delivery.tla (nothing twice, nothing partial, nothing accepted lost, order per "
+        "connection; a cancelled send delivered once whole or not at all) and the call sequences against Trace_Cancel.tla (never a state in "
+        "which every next call is rejected). The cancellation of a blocked send() inside ReadyPipeQueue is explored under the controlled "
+        "scheduler by C08 (Rpq.tla CancelSend).",
+   note="Await points beyond the third Pending of one call are not reached. A harness process that a scenario live-locks is killed and "
+        "reported as a call that never returned.",
+   technique="TLA+ spec (Cancel.tla, Delivery.tla, Rpq.tla) + TLC exhaustive incl. an as-is variant; TLC trace validation (Trace_Delivery, Trace_Cancel) of recorded histories with poll-indexed cancellation on real sockets",
+   design_ref="DESIGN.md 5 (C09)"),
 }
 
 NA_DEFAULT = "check not built yet (construction in progress; see DESIGN.md section 10)"
